@@ -139,3 +139,145 @@ Lemma trunc_spec (x : f64) : f64_trunc x = Ztrunc (B2R x).
 Proof.
   unfold f64_trunc. apply eq_IZR. rewrite Btrunc_correct; [ apply round_FIX_IZR | exact p64_lt_emax ].
 Qed.
+
+(** a float constant given as mantissa * 2^exponent *)
+Lemma cst_spec m e : (0 < m <= 2 ^ 53)%Z -> (-200 <= e <= 200)%Z ->
+  bnd (53 + e) (f64_cst m e).
+Proof.
+  intros Hm He.
+  assert (P : 0 <= F2R (Float radix2 m e) <= bpow radix2 (53 + e)).
+  { unfold F2R. cbn [Fnum Fexp]. rewrite bpow_plus. split.
+    - apply Rmult_le_pos; [ apply IZR_le; lia | apply bpow_ge_0 ].
+    - apply Rmult_le_compat_r; [ apply bpow_ge_0 | ].
+      change (bpow radix2 53) with (IZR (2 ^ 53)). apply IZR_le. lia. }
+  pose proof (binary_normalize_correct 53 1024 p64_gt_0 p64_lt_emax mode_NE m e false) as C.
+  cbn zeta in C. cbn [round_mode] in C.
+  rewrite (no_overflow _ (53 + e) ltac:(lia) (abs_nonneg_le _ _ P)) in C.
+  destruct C as (E & F & _). unfold f64_cst. split; [ exact F | ].
+  rewrite E. split; [ apply RN_nonneg; lra | ].
+  pose proof (RN_le_bpow _ (53 + e) ltac:(lia) (abs_nonneg_le _ _ P)) as Q.
+  rewrite Rabs_pos_eq in Q; [ exact Q | apply RN_nonneg; lra ].
+Qed.
+
+Definition E9 : Z := 1000000000.
+
+(** the real number Duration.Seconds() rounds: whole seconds plus the rounded fraction *)
+Definition g (d : Z) : R := IZR (d / E9) + RN (IZR (d mod E9) / IZR E9).
+
+Lemma frac_le_1 r : (0 <= r < E9)%Z -> 0 <= RN (IZR r / IZR E9) <= 1.
+Proof.
+  intros Hr. assert (0 <= IZR r / IZR E9 <= 1).
+  { unfold E9 in *. assert (0 <= IZR r <= 1000000000) by (split; apply IZR_le; lia).
+    split; [ apply Rmult_le_pos; lra | ]. apply Rmult_le_reg_r with 1000000000; [ lra | ].
+    unfold Rdiv. rewrite Rmult_assoc, Rinv_l by lra. lra. }
+  split; [ apply RN_nonneg; lra | ].
+  replace 1 with (RN (IZR 1)) by (apply RN_IZR; cbn; lia). apply RN_le. cbn. lra.
+Qed.
+
+Lemma g_mono d1 d2 : (0 <= d1 <= d2)%Z -> g d1 <= g d2.
+Proof.
+  intros H. unfold g.
+  assert (Hq : (d1 / E9 <= d2 / E9)%Z) by (apply Z.div_le_mono; unfold E9; lia).
+  pose proof (Z.mod_pos_bound d1 E9 ltac:(unfold E9; lia)) as R1.
+  pose proof (Z.mod_pos_bound d2 E9 ltac:(unfold E9; lia)) as R2.
+  destruct (Z.eq_dec (d1 / E9) (d2 / E9)) as [E | N].
+  - rewrite E. apply Rplus_le_compat_l. apply RN_le.
+    assert (d1 mod E9 <= d2 mod E9)%Z.
+    { pose proof (Z.div_mod d1 E9 ltac:(unfold E9; lia)). pose proof (Z.div_mod d2 E9 ltac:(unfold E9; lia)). nia. }
+    unfold Rdiv. apply Rmult_le_compat_r; [ left; apply Rinv_0_lt_compat; unfold E9; lra | apply IZR_le; assumption ].
+  - pose proof (frac_le_1 _ R1). pose proof (frac_le_1 _ R2).
+    assert (IZR (d1 / E9) + 1 <= IZR (d2 / E9)) by (rewrite <- plus_IZR; apply IZR_le; lia). lra.
+Qed.
+
+Lemma g_bounds d : (0 <= d < 2 ^ 62)%Z -> 0 <= g d <= bpow radix2 34.
+Proof.
+  intros H. unfold g.
+  pose proof (Z.mod_pos_bound d E9 ltac:(unfold E9; lia)) as R1. pose proof (frac_le_1 _ R1).
+  assert (0 <= d / E9 < 2 ^ 33)%Z.
+  { split; [ apply Z.div_pos; unfold E9; lia | apply Z.div_lt_upper_bound; unfold E9; lia ]. }
+  assert (0 <= IZR (d / E9) <= IZR (2 ^ 33)) by (split; apply IZR_le; lia).
+  change (bpow radix2 34) with (IZR (2 ^ 34)).
+  assert (IZR (2 ^ 33) + 1 <= IZR (2 ^ 34)) by (rewrite <- plus_IZR; apply IZR_le; lia). lra.
+Qed.
+
+Lemma duration_seconds_spec d : (0 <= d < 2 ^ 62)%Z ->
+  B2R (duration_seconds d) = RN (g d) /\ bnd 35 (duration_seconds d).
+Proof.
+  intros H. unfold duration_seconds.
+  rewrite Z.quot_div_nonneg, Z.rem_mod_nonneg by lia. fold E9.
+  pose proof (Z.mod_pos_bound d E9 ltac:(unfold E9; lia)) as R1.
+  assert (Q : (0 <= d / E9 < 2 ^ 33)%Z).
+  { split; [ apply Z.div_pos; unfold E9; lia | apply Z.div_lt_upper_bound; unfold E9; lia ]. }
+  destruct (of_Z_spec (d / E9) 34 ltac:(lia) ltac:(lia)) as [Eq Bq].
+  destruct (of_Z_spec (d mod E9) 34 ltac:(unfold E9 in *; lia) ltac:(lia)) as [Er Br].
+  destruct (of_Z_spec E9 34 ltac:(unfold E9; lia) ltac:(lia)) as [E9v [F9 _]].
+  rewrite RN_IZR in Eq by lia. rewrite RN_IZR in Er by (unfold E9 in *; lia).
+  rewrite RN_IZR in E9v by (unfold E9; lia).
+  destruct (div_spec (f64_of_Z (d mod E9)) (f64_of_Z E9) 34 ltac:(lia) Br F9
+              ltac:(rewrite E9v; unfold E9; lra)) as [Ed Bd].
+  destruct (add_spec (f64_of_Z (d / E9)) (f64_div (f64_of_Z (d mod E9)) (f64_of_Z E9)) 34 ltac:(lia) ltac:(lia) Bq Bd)
+    as [Ea Ba].
+  split; [ | exact Ba ].
+  rewrite Ea, Eq, Ed, Er, E9v. reflexivity.
+Qed.
+
+Lemma tps_bnd ipd : (0 <= ipd <= 2 ^ 17)%Z -> bnd 33 (ticks_per_second ipd).
+Proof.
+  intros H. unfold ticks_per_second.
+  destruct (of_Z_spec ipd 17 ltac:(lia) ltac:(lia)) as [_ Bi].
+  assert (Bc : bnd 16 c_enc_tpi).
+  { unfold c_enc_tpi. change 16%Z with (53 + enc_tpi_e)%Z. apply cst_spec; unfold enc_tpi_m, enc_tpi_e; lia. }
+  destruct (mul_spec _ _ 17 16 ltac:(lia) ltac:(lia) ltac:(lia) Bi Bc) as [_ B]. exact B.
+Qed.
+
+(** the product before truncation is monotone in the offset, finite and non-negative *)
+Theorem enc_float_mono ipd d1 d2 : (0 <= ipd <= 2 ^ 17)%Z -> (0 <= d1 <= d2)%Z -> (d2 < 2 ^ 62)%Z ->
+  0 <= B2R (enc_float ipd d1) <= B2R (enc_float ipd d2).
+Proof.
+  intros Hi Hd H2. unfold enc_float.
+  pose proof (tps_bnd ipd Hi) as BT.
+  destruct (duration_seconds_spec d1 ltac:(lia)) as [E1 B1].
+  destruct (duration_seconds_spec d2 ltac:(lia)) as [E2 B2].
+  destruct (mul_spec _ _ 33 35 ltac:(lia) ltac:(lia) ltac:(lia) BT B1) as [M1 [_ [P1 _]]].
+  destruct (mul_spec _ _ 33 35 ltac:(lia) ltac:(lia) ltac:(lia) BT B2) as [M2 _].
+  split; [ exact P1 | ]. rewrite M1, M2. apply RN_le.
+  destruct BT as [_ [T0 _]]. apply Rmult_le_compat_l; [ exact T0 | ].
+  rewrite E1, E2. apply RN_le. apply g_mono. lia.
+Qed.
+
+Definition enc_raw (ipd d : Z) : Z := f64_trunc (enc_float ipd d).
+
+Theorem enc_raw_mono ipd d1 d2 : (0 <= ipd <= 2 ^ 17)%Z -> (0 <= d1 <= d2)%Z -> (d2 < 2 ^ 62)%Z ->
+  (0 <= enc_raw ipd d1 <= enc_raw ipd d2)%Z.
+Proof.
+  intros Hi Hd H2. unfold enc_raw. rewrite !trunc_spec.
+  destruct (enc_float_mono ipd d1 d2 Hi Hd H2) as [P L]. split.
+  - rewrite <- (Ztrunc_IZR 0) at 1. apply Ztrunc_le. exact P.
+  - apply Ztrunc_le. exact L.
+Qed.
+
+(** the last offset of every on-disk timeframe's interval still encodes below 2^32 (evaluated) *)
+Lemma enc_raw_last : forallb (fun ipd => enc_raw ipd (interval_ns ipd - 1) <=? 4294967295)%Z ipds = true.
+Proof. vm_compute. reflexivity. Qed.
+
+Open Scope Z_scope.
+
+Lemma ipds_range ipd : In ipd ipds -> 1 <= ipd <= 2 ^ 17 /\ 0 < interval_ns ipd < 2 ^ 62.
+Proof.
+  unfold ipds. cbn [In]. intros H.
+  repeat (destruct H as [<- | H]; [ split; [ lia | vm_compute; split; reflexivity ] | ]). contradiction.
+Qed.
+
+(** C10, order: GetIntervalTicks32Bit is monotone in the offset and stays below 2^32 *)
+Theorem enc_mono ipd d1 d2 : In ipd ipds -> 0 <= d1 <= d2 -> d2 < interval_ns ipd ->
+  0 <= enc ipd d1 <= enc ipd d2 /\ enc ipd d2 <= 4294967295.
+Proof.
+  intros Hin Hd H2. destruct (ipds_range ipd Hin) as [Hi Hn].
+  pose proof enc_raw_last as L. rewrite forallb_forall in L. specialize (L ipd Hin). apply Z.leb_le in L.
+  destruct (enc_raw_mono ipd d1 d2 ltac:(lia) Hd ltac:(lia)) as [P12 L12].
+  destruct (enc_raw_mono ipd d2 (interval_ns ipd - 1) ltac:(lia) ltac:(lia) ltac:(lia)) as [_ L2].
+  assert (W : forall v, 0 <= v <= 4294967295 -> wrap U32 (wrap I64 v) = v).
+  { intros v Hv. rewrite (wrap_small I64), (wrap_small U32); [ reflexivity | | ];
+      unfold in_ity, ity_min, ity_max; cbn [ity_signed ity_bits]; norm_pows; lia. }
+  unfold enc. fold (enc_raw ipd d1). fold (enc_raw ipd d2). rewrite !W by lia. lia.
+Qed.
